@@ -738,6 +738,33 @@ Proof.
   cbn [to_prods prods_of_alts]. rewrite Es, (IH l' eq_refl). reflexivity.
 Qed.
 
+(** After [extract_options] no optional is left anywhere (so [eliminate_options] is dead code). *)
+Theorem no_optional_after_extract fuel st st' :
+  extract_loop fuel st = Ok st' -> gnoopt (st_ps st') = true.
+Proof. intros H. exact (proj2 (extract_loop_reach false fuel st st' H)). Qed.
+
+(** [is_bnf ps]: every production has exactly one alternative, made of terminals and
+    non-terminals only.  [finalize] succeeds exactly on such lists, and its result lists the same
+    productions. *)
+Definition is_bnf (ps : list eprod) : Prop :=
+  forall a b, In (a, b) ps -> exists alt r, b = [alt] /\ syms_of alt = Some r.
+
+Lemma finalize_is_bnf ps : forall l, finalize ps = Ok l ->
+  is_bnf ps /\ l = map (fun p => mkProd (fst p) (match snd p with
+                                               | [alt] => match syms_of alt with Some r => r | None => [] end
+                                               | _ => [] end)) ps.
+Proof.
+  induction ps as [|[a b] ps IH]; intros l H; cbn [finalize] in H.
+  - inversion H. split; [intros a b []|reflexivity].
+  - destruct b as [|alt [|alt2 b]]; try discriminate.
+    destruct (syms_of alt) as [rhs|] eqn:Es; [|discriminate].
+    destruct (finalize ps) as [l'|e]; [|discriminate]. cbn [bind] in H. inversion H; subst l.
+    destruct (IH l' eq_refl) as [Hb ->]. split.
+    + intros a' b' [E|Hin]; [inversion E; subst; exists alt, rhs; split; [reflexivity|exact Es]|].
+      exact (Hb a' b' Hin).
+    + cbn [map fst snd]. rewrite Es. reflexivity.
+Qed.
+
 (** ** The main theorem *)
 
 (** Input well-formedness: every non-terminal of the grammar has an entry in the name table. *)
@@ -1395,6 +1422,7 @@ Proof. vm_compute. reflexivity. Qed.
 
 Print Assumptions canon_step_preserves.
 Print Assumptions opt_step_unreachable.
+Print Assumptions no_optional_after_extract.
 Print Assumptions canon_preserves_forms.
 Print Assumptions canon_preserves_lang.
 Print Assumptions canon_preserves_language.
